@@ -312,6 +312,8 @@ def build_programs(tier, seed):
         progs.append(("mincing", pos, p))
     for pos, k, p in G.mincing(G.CONSTANT_NAMES, G.CONSTANT_POSITIONS):
         progs.append(("constant-names", pos, p))
+    for pos, k, p in G.mincing(G.MANGLED_NAMES, G.MANGLED_POSITIONS):
+        progs.append(("mangled-names", pos, p))
     for cls, p in G.literals():
         progs.append(("literals", cls, p))
     r = random.Random(seed * 7919 + 14)
